@@ -260,7 +260,14 @@ func Render(s *Scenario) Rendered {
 				}
 				body.WriteString("\treturn s\n}\n")
 			}
-			files[dir+names[f-1]] = header(pkgName, c.uses) + body.String()
+			// Generated-code style: the files of a package start with //line directives that
+			// claim ONE common file name (goyacc, ragel, cgo output): nothing in the build may
+			// depend on the claimed name instead of the real one (e.g. the sort of the files).
+			lineDir := ""
+			if len(names) > 1 {
+				lineDir = "//line gen_" + pkgName + ".y:1\n"
+			}
+			files[dir+names[f-1]] = lineDir + header(pkgName, c.uses) + body.String()
 			if pk == "m" {
 				out.MainFiles = append(out.MainFiles, names[f-1])
 			}
